@@ -336,9 +336,54 @@ func c19(c *Ctx) {
 				}
 			}
 			okSkip := body != nil
+			// Merge(a, nil) with a non-nil a is a itself (and no error): skipping the merge of a nil result changes nothing.
+			// Read off Merge: under a != nil, b == nil every return reached is `return a, nil`.
+			mergeNilIdentity := false
+			if msig := merge.Obj.Type().(*types.Signature); msig.Params().Len() == 2 {
+				pa, pb := msig.Params().At(0), msig.Params().At(1)
+				mg := rx.FG(merge)
+				seenM := mg.ReachUnder(func(e ast.Expr) (constant.Value, bool) {
+					if be, ok := e.(*ast.BinaryExpr); ok && (be.Op == token.EQL || be.Op == token.NEQ) {
+						var side ast.Expr
+						if id, isID := unparen(be.Y).(*ast.Ident); isID && id.Name == "nil" {
+							side = be.X
+						} else if id, isID := unparen(be.X).(*ast.Ident); isID && id.Name == "nil" {
+							side = be.Y
+						}
+						if side != nil {
+							if sameVar(info, side, pa) {
+								return constant.MakeBool(be.Op == token.NEQ), true
+							}
+							if sameVar(info, side, pb) {
+								return constant.MakeBool(be.Op == token.EQL), true
+							}
+						}
+					}
+					return nil, false
+				})
+				nret := 0
+				mergeNilIdentity = true
+				for x := range seenM {
+					if rs, ok := x.N.(*ast.ReturnStmt); ok {
+						nret++
+						if len(rs.Results) != 2 || !sameVar(info, rs.Results[0], pa) {
+							mergeNilIdentity = false
+						} else if id, isID := unparen(rs.Results[1]).(*ast.Ident); !isID || id.Name != "nil" {
+							mergeNilIdentity = false
+						}
+					}
+				}
+				mergeNilIdentity = mergeNilIdentity && nret >= 1
+			}
 			if okSkip {
 				seen, _ := dg.Reach([]*GNode{body}, func(y *GNode) bool { return y == merges[0] }, func(e *GEdge) bool {
 					return dg.edgeImpliesDeep(e, func(cnd ast.Expr, pol int) bool {
+						// the detector's result is nil (nothing to merge)
+						if mergeNilIdentity && detected != nil {
+							if nn, ok := nilCmp(info, cnd, pol, func(x ast.Expr) bool { return sameVar(info, x, detected) }); ok && !nn {
+								return true
+							}
+						}
 						// detector == nil
 						if nn, ok := nilCmp(info, cnd, pol, func(x ast.Expr) bool {
 							tv, has := info.Types[x]
